@@ -12,3 +12,10 @@ long long verif_clock_get();
 //   traceFd   : when >= 0 every counted call is logged there as "<k> <call> <path>"
 void verif_shim_arm(int crashAt, int failAt, int failErrno, int traceFd);
 int verif_shim_disarm(); // returns the number of counted calls since arm
+
+// sticky failure mode ("the directory is not writable"): while armed, EVERY rename/renameat2/link/linkat/unlink and every
+// open that would CREATE a file that does not exist yet fails with err (0 = off). Calls are still counted and traced.
+void verif_shim_sticky(int err);
+
+// observation hook: called right before an unlink() is executed (armed or not), with the path about to disappear
+void verif_shim_on_unlink(void (*hook)(const char *path));
